@@ -8,6 +8,12 @@ CHECKS = {
  "C01": dict(level="exploration", technique="property-based testing (proptest): generated documents and spellings, independent-reader oracle per target format, plus enumerated scalar/int/float/depth sweeps",
    text="Generated-input search with an explicit reference oracle: every generated document is written by harness spelling writers, translated by xt for all 16 format pairs under drawn supply modes, decoded by independent readers and compared type-exactly with the model. Finite sub-domains (special scalars, int boundaries, depth-64 chains) are enumerated completely. Exploration is the right level: the property quantifies over an unbounded value/spelling space.",
    note="Trusts the harness readers (own JSON/MessagePack decoders, libyaml events + own core-schema resolver, toml_edit walk) and writers (each writer is validated against the reader on every case). Known findings K3/K5 are excluded by input-side class predicates.", ref="4 C01"),
+ "C02": dict(level="exploration", technique="differential property-based testing (proptest) of slice vs scheduled-reader supply over generated/mutated/enumerated byte strings, plus file/stdin/FIFO differential through the real binary",
+   text="Generated-input search with a differential oracle that is exactly the statement: same verdict, byte-identical output on success, prefix-comparable partial output on failure, for the same bytes under two supply modes. Token sequences up to a length bound are enumerated exhaustively; everything else is sampled.",
+   note="Known findings K1 and K2 are excluded only when both their input-side predicate and their licensed disagreement shape hold. Error texts are not compared.", ref="4 C02"),
+ "C04": dict(level="exploration", technique="property-based testing and bounded enumeration in crash-isolated workers: generated/mutated/adversarial byte strings and planted refusals, oracle = returns Ok or Err (no panic, signal or hang); real binaries sampled",
+   text="Totality is checked by executing: every case runs slice and reader translation under catch_unwind inside worker processes whose death (signal) is attributed to a concrete case by traced re-execution; a heartbeat watchdog turns non-termination into a reported case. The debug and release binaries (panic=abort) are run on a sample and on all adversarial shapes.",
+   note="Sees only executed inputs. libyaml's scanner is quadratic in flow-nesting depth, so flow nesting beyond 20,000 levels is not given to the YAML parser (it terminates, in hours).", ref="4 C04"),
 }
 
 PENDING = {}
